@@ -1738,12 +1738,12 @@ def strat_framework(tier):
 SUBS = [
     Sub("framework", check_framework, strategy=strat_framework, quick=300, thorough=3000, workers_quick=2),
     Sub("command", check_command, strategy=strat_command, quick=800, thorough=10000, workers_quick=2),
-    Sub("json", check_json, strategy=strat_json, quick=800, thorough=10000, workers_quick=2),
-    Sub("yaml", check_yaml, strategy=strat_yaml, quick=600, thorough=8000, workers_quick=2),
+    Sub("json", check_json, strategy=strat_json, quick=400, thorough=10000, workers_quick=4),
+    Sub("yaml", check_yaml, strategy=strat_yaml, quick=300, thorough=8000, workers_quick=4),
     Sub("log_get", check_get, strategy=strat_get, quick=800, thorough=10000, workers_quick=2),
-    Sub("log_after", check_after, strategy=strat_after, quick=900, thorough=12000, workers_quick=2),
-    Sub("log_history", check_history, strategy=strat_history, quick=400, thorough=4000, workers_quick=2),
-    Sub("provider", check_provider, strategy=strat_provider, quick=350, thorough=6000, workers_quick=2),
+    Sub("log_after", check_after, strategy=strat_after, quick=450, thorough=12000, workers_quick=4),
+    Sub("log_history", check_history, strategy=strat_history, quick=200, thorough=4000, workers_quick=4),
+    Sub("provider", check_provider, strategy=strat_provider, quick=175, thorough=6000, workers_quick=4),
 ]
 
 REGRESSIONS = [
